@@ -81,6 +81,18 @@ func profC12() *RevProfile {
 
 // runRev is the shared runner of the revocation-family properties.
 func runRev(propID string, prof *RevProfile, rules []string, t *Tape, st *Stats, tier string) *RunResult {
+	if tier == "thorough" {
+		// deeper exploration: larger bodies more often, and for the schedule
+		// profile every permutation of completion orders
+		if prof.BigBodyPct > 0 {
+			prof.BigBodyPct *= 3
+		}
+		if prof.Schedules > 1 {
+			prof.Perms = -1
+		}
+	} else if prof.Schedules > 1 {
+		prof.Perms = 2
+	}
 	sc := GenRevScenario(t, prof)
 	return runRevScenario(propID, sc, rules, st, tier)
 }
